@@ -209,7 +209,25 @@ func (vc *VC) singleScriptOpt(target *Obligation, model bool, deep bool) string 
 	}
 	var qhyps []*qhyp
 	var extraDecls []string
-	emit := func(t string) {
+	var hypWitnesses []skolem
+	var emit func(t string)
+	emit = func(t string) {
+		if strings.Contains(t, "(exists ") {
+			// an existential hypothesis is replaced by its skolemised form (fresh witness constants)
+			if sx, err := parseSx(t); err == nil {
+				var wit []skolem
+				sx2 := skolemizeGoal(sx, false, func(sort string) string {
+					nsk++
+					n := fmt.Sprintf("sk!%d", nsk)
+					extraDecls = append(extraDecls, fmt.Sprintf("(declare-const %s %s)", n, sort))
+					return n
+				}, &wit)
+				if len(wit) > 0 {
+					t = sx2.String()
+					hypWitnesses = append(hypWitnesses, wit...)
+				}
+			}
+		}
 		b.WriteString("(assert " + t + ")\n")
 		if strings.Contains(t, "(forall ") {
 			if sx, err := parseSx(t); err == nil {
@@ -323,6 +341,10 @@ func (vc *VC) singleScriptOpt(target *Obligation, model bool, deep bool) string 
 					gsx = gsx.L[2]
 					goal = gsx.String()
 				}
+			}
+			if gsx != nil && len(hypWitnesses) > 0 && strings.Contains(goal, "(exists ") {
+				gsx = expandExists(gsx, true, hypWitnesses)
+				goal = gsx.String()
 			}
 			if len(qhyps) > 0 {
 				instantiateAll(gsx)
